@@ -4,7 +4,7 @@
 
    Every event carries an observation made from the harness side of the stubs (times in ms):
      t        virtual time           idle    the loop has no ready handle
-     st[q]    new | pending | ok | timeout | cancelled | error      (q = v, b, f1, f2, and v2 = the
+     st[q]    new | pending | ok | timeout | cancelled | error      (q = v, b, [c,] f1.., and v2 = the
               immediate retry the victim's caller issues from its exception handler, if enabled)
      ph[q]    where q is as far as the stubs show: waiting | sock | connmade | exchange | <st>
      refs[K]  instant from which timeout K of the victim currently counts (-1: does not apply):
@@ -20,11 +20,14 @@
      timers   pending timers minus harness watchdog minus connector keep-alive cleanup
      dnsw     futures parked on the shared DNS lookup        cancelreq  caller cancelled v while pending
      interim  a 100 Continue was delivered to the victim
+     vconns   number of connections the victim's request has been sent on so far
      fault    the driver injected a peer fault (random driver only)
    cfg: limit, thr (ceil threshold), to[K] (0 = not configured).
 
    Clauses (same names as the invariants of ClientTimeouts):
-     Bounded            victim still pending after refs[K] + to[K] + documented rounding
+     Bounded            victim still pending after refs[K] + to[K] + documented rounding; or (info
+                        "<K>-expired") a deadline that applied was reached and the call did not end
+                        by the next quiescent observation (e.g. it silently retried elsewhere)
      EarlyTimeout       a timeout-class error before any configured delay elapsed / none configured
      CancelPropagates   caller cancel not ending in CancelledError, or CancelledError without cancel
      CancelSwallowedNestedTimer   the named deviation: total timer and caller cancel both hit the
@@ -41,16 +44,37 @@
      UnexpectedError    the victim failed with a non-timeout error although no fault was injected *)
 EXTENDS Integers, Sequences, FiniteSets, TLC, TraceBatch
 
-VARIABLES tid, l, prev, bad, resDone
+VARIABLES tid, l, prev, bad, resDone, due
 
-tvars == <<tid, l, prev, bad, resDone>>
+tvars == <<tid, l, prev, bad, resDone, due>>
 
 Kinds == <<"total", "connect", "sock_connect", "sock_read">>
 Rng(q) == {q[i] : i \in 1..Len(q)}
 CeilS(t) == IF (t % 1000) = 0 THEN t ELSE t + (1000 - (t % 1000))
 Deadline(ref, d, thr) == IF d >= thr THEN CeilS(ref + d) ELSE ref + d
 Ended(st) == st \notin {"new", "pending"}
-Followers(o) == {q \in DOMAIN o.st : q \notin {"v", "b"}}
+Bystanders(o) == DOMAIN o.st \cap {"b", "c"}
+Followers(o) == {q \in DOMAIN o.st : q \notin {"v", "b", "c"}}
+
+(* A deadline that was reached: `due` = <<kind index, its reference instant, connections the victim
+   had used>> is set when time reaches ref + delay while timeout K applied and the victim was
+   pending; it is void again only if the victim ended or the reference moved legitimately (more
+   bytes / reading resumed on the SAME exchange).  An expired deadline must have ended the call by
+   the next quiescent observation at or after ref + delay + rounding - whatever the call does
+   instead (e.g. silently retrying on another connection).                                      *)
+NoDue == <<0, 0, 0>>
+ExpInfo == <<"total-expired", "connect-expired", "sock_connect-expired", "sock_read-expired">>
+Renewed(d, o) == d[1] # 0 /\ o.refs[Kinds[d[1]]] > d[2] /\ o.vconns = d[3]
+DueNext(d, p, o, c) ==
+    IF Ended(o.st["v"]) THEN NoDue
+    ELSE LET d1 == IF d[1] # 0 THEN d
+                   ELSE LET cr == {i \in 1..4 : /\ c.to[Kinds[i]] > 0 /\ p.refs[Kinds[i]] >= 0
+                                                 /\ p.st["v"] = "pending"
+                                                 /\ o.t >= p.refs[Kinds[i]] + c.to[Kinds[i]]}
+                        IN IF cr = {} THEN NoDue
+                           ELSE LET i == CHOOSE x \in cr : \A y \in cr : x <= y
+                                IN <<i, p.refs[Kinds[i]], p.vconns>>
+         IN IF Renewed(d1, o) THEN NoDue ELSE d1
 
 MinTo(c) ==
     LET ds == {c.to[Kinds[i]] : i \in {j \in 1..4 : c.to[Kinds[j]] > 0}}
@@ -71,7 +95,7 @@ Residue(o) ==
          THEN "dns-waiter"
     ELSE ""
 
-Clause(p, e, c, rd) ==
+Clause(p, e, c, rd, dn) ==
     LET o == e.obs
         bb == BoundedBad(o, c)
         vEndsNow == p.st["v"] = "pending" /\ Ended(o.st["v"])
@@ -79,6 +103,9 @@ Clause(p, e, c, rd) ==
     IF bb = {4} /\ o.interim /\ ~o.gotresp /\ o.timers = <<>>
        THEN <<"ReadTimerNotStartedAfterInterim", "no sock_read timer after 100 Continue + request body">>
     ELSE IF bb # {} THEN <<"Bounded", Kinds[CHOOSE i \in bb : TRUE]>>
+    ELSE IF /\ dn[1] # 0 /\ o.idle /\ o.st["v"] = "pending" /\ ~o.fault
+            /\ o.t >= Deadline(dn[2], c.to[Kinds[dn[1]]], c.thr)
+         THEN <<"Bounded", ExpInfo[dn[1]]>>
     ELSE IF vEndsNow /\ o.st["v"] = "timeout" /\ ~o.cancelreq
             /\ (MinTo(c) = 0 \/ o.tend["v"] < p.refs["total"] + MinTo(c))
          THEN <<"EarlyTimeout", "">>
@@ -94,8 +121,10 @@ Clause(p, e, c, rd) ==
     ELSE IF Ended(o.st["v"]) /\ o.idle /\ ~rd /\ Residue(o) # "" THEN <<"NoResidue", Residue(o)>>
     ELSE IF \E q \in DOMAIN o.held : q # "v" /\ o.held[q] # -1 /\ o.held[q] \in Rng(o.faulted)
          THEN <<"NoResidue", "faulted-connection-reused">>
-    ELSE IF o.st["b"] \in {"cancelled", "timeout", "error"} /\ ~o.fault THEN <<"BystanderUnharmed", o.st["b"]>>
-    ELSE IF e.ev = "served" /\ o.st["b"] = "pending" /\ ~o.fault THEN <<"BystanderUnharmed", "stuck">>
+    ELSE IF ~o.fault /\ \E b \in Bystanders(o) : o.st[b] \in {"cancelled", "timeout", "error"}
+         THEN <<"BystanderUnharmed", o.st[CHOOSE b \in Bystanders(o) : o.st[b] \in {"cancelled", "timeout", "error"}]>>
+    ELSE IF e.ev = "served" /\ ~o.fault /\ \E b \in Bystanders(o) : o.st[b] = "pending"
+         THEN <<"BystanderUnharmed", "stuck">>
     ELSE IF e.ev = "probe" /\ \E q \in Followers(o) : o.held[q] = -1 /\ o.st[q] = "pending"
          THEN <<"SessionUsable", "no-slot">>
     ELSE IF e.ev = "final" /\ \E q \in Followers(o) : o.st[q] \notin {"ok", "new"}
@@ -108,17 +137,20 @@ TInit ==
     /\ prev = Events(tid)[1].obs
     /\ bad = ""
     /\ resDone = FALSE
+    /\ due = NoDue
     /\ Verdict(tid, 0, "", "")
 
 TNext ==
     /\ bad = ""
     /\ l < NEvents(tid)
     /\ LET e == Events(tid)[l + 1]
-           b == Clause(prev, e, Cfg(tid), resDone)
+           dn == DueNext(due, prev, e.obs, Cfg(tid))
+           b == Clause(prev, e, Cfg(tid), resDone, dn)
            l2 == IF b[1] = "" THEN l + 1 ELSE l
        IN /\ bad' = b[1]
           /\ l' = l2
           /\ prev' = e.obs
+          /\ due' = dn
           /\ resDone' = (resDone \/ (Ended(e.obs.st["v"]) /\ e.obs.idle))
           /\ UNCHANGED tid
           /\ Verdict(tid, l2, b[1], b[2])
